@@ -12,7 +12,7 @@ combined (`CanonSet`).  `denS s ver a` — address `a` of family `ver` is denote
 `canonset_ext` (Lemmas/CanonSetL) is the uniqueness theorem: two such block sets with the
 same denotation have the same members.
 -/
-import NetaddrVerif.Lemmas.IPSetL7
+import NetaddrVerif.Lemmas.IPSetL10
 namespace NV.C06
 open NV NV.IPSet
 
@@ -125,6 +125,31 @@ theorem pop_spec (s : St) (hs : Inv s) (b : Net) (hb : b ∈ s) :
 
 /-- `copy()` / pickling / `copy.copy` / `deepcopy` give the same keys -/
 theorem copy_spec (s : St) (hs : Inv s) : Inv (copy s) ∧ (∀ n, n ∈ copy s ↔ n ∈ s) := IPSet.copy_spec s hs
+
+/-- `compact()` re-canonicalises ANY state of in-range keys and keeps its addresses -/
+theorem compact_spec (s : St) (hg : ∀ n ∈ s, n.WF) :
+    Inv (compact s) ∧ ∀ u a, denS (compact s) u a ↔ denS s u a := IPSet.compact_spec s hg
+
+/-- constructors: `IPSet(iterable)`, `IPSet(IPNetwork)`, `IPSet(IPRange)`, `IPSet(IPSet)` -/
+theorem new_list_spec (xs : List Arg) (hx : ∀ x ∈ xs, ArgOK x) :
+    Inv (newOfList xs) ∧ ∀ u a, denS (newOfList xs) u a ↔ argsDen xs u a := newOfList_spec xs hx
+theorem new_net_spec (n : Net) (h : n.WF) :
+    Inv (newOfNet n) ∧ ∀ u a, denS (newOfNet n) u a ↔ argDen (.net n) u a := newOfNet_spec n h
+theorem new_range_spec (r : Rng) (h : ArgOK (.rng r)) :
+    Inv (newOfRange r) ∧ ∀ u a, denS (newOfRange r) u a ↔ argDen (.rng r) u a := newOfRange_spec r h
+theorem new_set_spec (t : St) (ht : Inv t) : Inv (newOfSet t) ∧ ∀ n, n ∈ newOfSet t ↔ n ∈ t :=
+  newOfSet_spec t ht
+
+/-- `add(IPRange)` and both forms of `update` -/
+theorem add_range_spec (s : St) (hs : ∀ n ∈ s, Good n) (r : Rng) (h : ArgOK (.rng r)) :
+    Inv (addRange s r) ∧ ∀ u a, denS (addRange s r) u a ↔ denS s u a ∨ argDen (.rng r) u a :=
+  addRange_spec s hs r h
+theorem update_set_spec (s t : St) (hs : ∀ n ∈ s, n.WF) (ht : ∀ n ∈ t, n.WF) :
+    Inv (updateSet s t) ∧ ∀ u a, denS (updateSet s t) u a ↔ denS s u a ∨ denS t u a :=
+  updateSet_spec s t hs ht
+theorem update_list_spec (s : St) (hs : ∀ n ∈ s, Good n) (xs : List Arg) (hx : ∀ x ∈ xs, ArgOK x) :
+    Inv (updateList s xs) ∧ ∀ u a, denS (updateList s xs) u a ↔ denS s u a ∨ argsDen xs u a :=
+  updateList_spec s hs xs hx
 
 /-! ### non-vacuity -/
 example : (⟨4, 0x0a000005, 24⟩ : Net).WF := by simp [Net.WF, width]
